@@ -20,7 +20,7 @@ CASE_TIMEOUT = 300
 
 KINDS = ["complex_dtype", "nontext_name", "duplicate_name", "none_in_required", "bad_object_encoding", "append_diff_columns",
          "append_diff_dtype", "append_diff_scheme", "append_diff_partitioning", "append_unencodable_value", "unknown_column_read",
-         "unknown_column_filter", "unknown_codec", "bad_times", "append_extra_column", "append_missing_column", "na_in_required_int"]
+         "unknown_column_filter", "unknown_codec", "bad_times", "append_extra_column", "append_missing_column", "na_in_required_int", "extension_object_dtype"]
 STATES = ["simple", "hive", "hive_part"]
 
 
@@ -42,6 +42,12 @@ def gen_cases(tier, seed):
         for rows in ([3000] if tier == "quick" else [400, 3000, 20000]):
             cases.append({"id": "B/%s/%s/%s/%s/%d" % (kind, pos, rgpos, state, rows), "kind": kind, "pos": pos, "rgpos": rgpos, "state": state,
                           "nrg": 2, "mode": "append", "seed": 1900 + k, "rows": rows, "new_rows": rows})
+    # a handle that is kept after one of its appends was refused: what it appends later must not carry rows of the refused frame
+    for kind, pos, state, rows in itertools.product(["append_unencodable_value", "na_in_required_int"], ["first", "last"], ["hive", "hive_part", "simple"],
+                                                    [12, 400] if tier == "quick" else [12, 400, 5000]):
+        k += 1
+        cases.append({"id": "H/%s/%s/%s/%d" % (kind, pos, state, rows), "kind": kind, "pos": pos, "rgpos": "later", "state": state, "nrg": 2, "mode": "append",
+                      "seed": 2100 + k, "rows": 12, "new_rows": rows, "reuse_handle": True})
     rng = np.random.default_rng([seed, 1818])
     for i in range(150 if tier == "quick" else 3000):
         cases.append({"id": "R/%d/%d" % (seed, i), "kind": KINDS[int(rng.integers(0, len(KINDS)))],
@@ -77,6 +83,13 @@ def make_bad(case, df, rng):
     bad = df.copy()
     if kind == "complex_dtype":
         bad[target] = np.arange(n).astype("complex128")
+    elif kind == "extension_object_dtype":
+        # pandas extension dtypes of kind 'O' that the format has no mapping for; with an explicit object_encoding
+        if case["seed"] % 2:
+            bad[target] = pd.period_range("2020-01", periods=n, freq="M")
+        else:
+            bad[target] = pd.cut(np.arange(n), bins=3)
+        kw["object_encoding"] = ["utf8", {"rid": "utf8"}][(case["seed"] // 2) % 2]
     elif kind == "nontext_name":
         bad = bad.rename(columns={target: 7})
     elif kind == "duplicate_name":
@@ -187,7 +200,12 @@ def run_case(case):
                         kws["append"] = True
                     if case["nrg"] > 1:
                         kws["row_group_offsets"] = max(1, n_new // 2)
-                    fastparquet.write(path, bad, **kws)
+                    if case.get("reuse_handle"):
+                        kept = fastparquet.ParquetFile(path)
+                        bad_r = bad.reset_index(drop=True)
+                        kept.write_row_groups(bad_r, row_group_offsets=[0, max(1, n_new // 2)])
+                    else:
+                        fastparquet.write(path, bad, **kws)
                     returned = True
             except Exception as e:
                 raised = e
@@ -267,6 +285,21 @@ def run_case(case):
             old = after_tab[after_tab["rid"] < n] if "rid" in after_tab else after_tab.iloc[0:0]
             if len(old) != len(before_tab) or (("rid" in after_tab) and sorted(old["rid"].tolist()) != sorted(before_tab["rid"].tolist())):
                 res["failures"].append({"kind": "old_rows_lost_after_accepted_op", "expected": len(before_tab), "got": len(old), **ctx})
+        if case.get("reuse_handle") and not returned:
+            try:
+                good = base_frame(rng, 5, 10 ** 6, part, case["pos"])
+                if kind == "na_in_required_int":
+                    good.insert(list(df0.columns).index("m"), "m", pd.array(np.arange(5), dtype=df0["m"].dtype))
+                kept.write_row_groups(good)
+                after2 = fastparquet.ParquetFile(path).to_pandas(index=False)
+                want = sorted(before_tab["rid"].tolist() + good["rid"].tolist())
+                got_r = sorted(int(x) for x in after2["rid"].tolist())
+                counters["kept_handle_followups"] = counters.get("kept_handle_followups", 0) + 1
+                if got_r != want:
+                    res["failures"].append({"kind": "rows_of_refused_frame_persisted_by_later_append", "unexpected": sorted(set(got_r) - set(want))[:6],
+                                            "missing": sorted(set(want) - set(got_r))[:6], **ctx})
+            except Exception as e:
+                res["failures"].append({"kind": "append_through_kept_handle_after_refusal_raised", **ctx, **C.exc_shape(e)})
         res["outcome"] = "ok"
         res["nontrivial"] = not returned
         res["features"] = [ctx[k] for k in ("rejection", "pos", "rgpos", "state", "nrg", "mode")]
